@@ -597,6 +597,14 @@ class ExperimentPackage(StorageStructurePathResolver):
                     sourceFolder, method = sourceFolder.rsplit(':', 1)
                     target_folder_path = os.path.join(targetPath, targetFolder)
 
+                    # VV: Manifest entries populate the instance directory, they must not reach outside it (e.g.
+                    # `../name` or a path that goes through a folder which an earlier entry linked to its source)
+                    real_root = os.path.realpath(targetPath)
+                    real_target = os.path.realpath(target_folder_path)
+                    if real_target == real_root or os.path.commonpath([real_root, real_target]) != real_root:
+                        raise OSError(errno.EPERM, "Manifest entry %s (%s) is not a path under the instance directory" % (
+                            targetFolder, sourceFolder), target_folder_path)
+
                     if method == 'copy':
                         logger.info("Copying %s to %s" % (sourceFolder, targetFolder))
                         shutil.copytree(sourceFolder, target_folder_path)
